@@ -16,6 +16,7 @@ type tgen struct {
 	lastWord bool
 	comments bool // allow `# …` comments between tokens
 	nasty    bool // allow invalid UTF-8 / exotic runes in strings
+	tame     bool // avoid every trigger of the known deviations R12a, R12b, R13a–R13e
 }
 
 var tgNames = []string{"a", "b", "c", "foo", "Bar", "_", "x1", "on", "query", "fragment", "type", "null", "true", "false",
@@ -53,7 +54,14 @@ func (g *tgen) emit(toks ...string) {
 	}
 }
 
-func (g *tgen) name() string     { return rng.Pick(g.r, tgNames) }
+func (g *tgen) name() string {
+	for {
+		n := rng.Pick(g.r, tgNames)
+		if !(g.tame && strings.HasPrefix(n, "__")) {
+			return n
+		}
+	}
+}
 func (g *tgen) typeName() string { return rng.Pick(g.r, tgTypeNames) }
 func (g *tgen) nameNot(bad ...string) string {
 	for {
@@ -75,6 +83,8 @@ var strEsc = []string{`\"`, `\\`, `\/`, `\b`, `\f`, `\n`, `\r`, `\t`, `\u0041`, 
 var strCtl = []string{`\u0007`, `\u000b`, `\u0000`, `\u001f`, `\u007f`, `\u0001`, `\u001B`, "\x7f"}
 var strExotic = []string{"\u2028", "\u00ad", "\ufeff", "\ue000", "\U000e0001", "\U0010ffff", "\u0085", "\u00a0", "\ufffd", "\u200b", "\u3000", "\U0001f600",
 	`\u2028`, `\u00ad`, `\uFEFF`, `\ud83d\ude00`, `\ud800`, `\u0085`, `\u00a0`, `\ufffe`, `\ue000`}
+var strTameExotic = []string{"\u2028", "\u00ad", "\ufeff", "\ue000", "\u0085", "\u00a0", "\ufffd", "\u200b", "\u3000", "\U0001f600",
+	`\u2028`, `\u00ad`, `\uFEFF`, `\ud83d\ude00`, `\u0085`, `\u00a0`, `\ufffe`, `\ue000`}
 var strInvalid = []string{"\xff", "\xc0\x80", "\xe0\x80", "\xed\xa0\x80", "\x80", "\xf4\x90\x80\x80", "\xc3"}
 
 func (g *tgen) stringBody() string {
@@ -83,6 +93,8 @@ func (g *tgen) stringBody() string {
 	n := r.Intn(5)
 	for i := 0; i < n; i++ {
 		switch k := r.Intn(20); {
+		case g.tame && k >= 14:
+			sb.WriteString(rng.Pick(r, strTameExotic))
 		case k < 9:
 			sb.WriteString(rng.Pick(r, strPlain))
 		case k < 14:
@@ -217,7 +229,7 @@ func (g *tgen) varDefs() {
 			g.emit("=")
 			g.value(true, 2)
 		}
-		if g.r.Chance(1, 4) {
+		if g.r.Chance(1, 4) && !g.tame {
 			g.dirs(true)
 		}
 	}
@@ -255,8 +267,8 @@ func (g *tgen) selSet(depth int) {
 }
 
 // GenQueryText: a random executable document.
-func GenQueryText(r *rng.R, comments, nasty bool) string {
-	g := &tgen{r: r, comments: comments, nasty: nasty}
+func GenQueryText(r *rng.R, comments, nasty, tame bool) string {
+	g := &tgen{r: r, comments: comments, nasty: nasty && !tame, tame: tame}
 	for n := 1 + r.Intn(3); n > 0; n-- {
 		switch k := r.Intn(10); {
 		case k < 2:
@@ -336,6 +348,22 @@ func quoteGql(s string) string {
 // desc emits an optional description: quoted form of a chosen value, or a raw block string.
 func (g *tgen) desc() {
 	r := g.r
+	if g.tame {
+		if r.Chance(1, 2) {
+			return
+		}
+		// a description the block-string rendering can represent: no triple quote, no CR, no control
+		// characters, first and last line not blank, first line not indented
+		words := []string{"text", "Some words.", "é", "😀", "#", "say \"hi\"", "\"\"", "back\\slash", "x", "a  b", "\\", "tab\there", "\u00a0", "\u2028"}
+		var sb strings.Builder
+		sb.WriteString(rng.Pick(r, words))
+		for n := r.Intn(3); n > 0; n-- {
+			sb.WriteString(rng.Pick(r, []string{"\n", "\n\n", "\n  ", "\n\t", " ", "\n \n"}))
+			sb.WriteString(rng.Pick(r, words))
+		}
+		g.emit(quoteGql(sb.String()))
+		return
+	}
 	switch k := r.Intn(10); {
 	case k < 4:
 		return
@@ -479,8 +507,8 @@ func (g *tgen) opTypes() {
 }
 
 // GenSchemaDocText: a random type-system document (parse level; need not load).
-func GenSchemaDocText(r *rng.R, comments, nasty bool) string {
-	g := &tgen{r: r, comments: comments, nasty: nasty}
+func GenSchemaDocText(r *rng.R, comments, nasty, tame bool) string {
+	g := &tgen{r: r, comments: comments, nasty: nasty && !tame, tame: tame}
 	for n := 1 + r.Intn(4); n > 0; n-- {
 		switch k := r.Intn(12); {
 		case k == 0:
@@ -572,8 +600,8 @@ func (g *lgen) ldirs() {
 }
 
 // GenLoadableSchemaText: a type system that is meant to load (the real loader decides).
-func GenLoadableSchemaText(r *rng.R, nasty bool) string {
-	g := &lgen{tgen: &tgen{r: r, nasty: nasty}, dirArgs: map[string][]string{}, dirRep: map[string]bool{}}
+func GenLoadableSchemaText(r *rng.R, nasty, tame bool) string {
+	g := &lgen{tgen: &tgen{r: r, nasty: nasty && !tame, tame: tame}, dirArgs: map[string][]string{}, dirRep: map[string]bool{}}
 	allTS := "SCHEMA | SCALAR | OBJECT | FIELD_DEFINITION | ARGUMENT_DEFINITION | INTERFACE | UNION | ENUM | ENUM_VALUE | INPUT_OBJECT | INPUT_FIELD_DEFINITION"
 	// directives
 	for i, n := 0, r.Intn(3); i < n; i++ {
@@ -792,8 +820,14 @@ func GenLoadableSchemaText(r *rng.R, nasty bool) string {
 	// roots
 	qName := rng.Pick(r, []string{"Query", "Query", "Q", "Mutation"})
 	object(qName)
+	if tame && qName == "Mutation" {
+		qName = "Q"
+	}
 	mMode := r.Intn(5) // 0 none, 1 Mutation root (default name), 2 custom root M, 3 type named Mutation that is NOT a root, 4 none
 	mName := ""
+	if tame && mMode == 3 {
+		mMode = 1
+	}
 	switch mMode {
 	case 1, 3:
 		if qName != "Mutation" {
@@ -811,7 +845,9 @@ func GenLoadableSchemaText(r *rng.R, nasty bool) string {
 	}
 	needBlock := qName != "Query" || mName == "M" || sName == "Sub" || mMode == 3
 	if needBlock || r.Chance(1, 3) {
-		g.ldesc()
+		if !tame {
+			g.ldesc()
+		}
 		g.emit("schema")
 		g.ldirs()
 		g.emit("{", "query", ":", qName)
